@@ -1,0 +1,23 @@
+//! Verification hooks (compiled only with `--cfg eigerco_lumina_verif`).
+//!
+//! Thin wrappers that expose private items of `header_ex::client` through public types only.
+//! Nothing here changes the behaviour of the code it wraps.
+
+use celestia_proto::p2p::pb::{HeaderRequest, HeaderResponse};
+use celestia_types::ExtendedHeader;
+
+use crate::p2p::header_ex::HeaderExError;
+use crate::p2p::header_ex::utils::HeaderRequestExt;
+
+/// The real (private) `decode_and_verify_responses` of the header-ex client.
+pub async fn decode_and_verify_responses(
+    request: &HeaderRequest,
+    responses: &[HeaderResponse],
+) -> Result<Vec<ExtendedHeader>, HeaderExError> {
+    super::decode_and_verify_responses(request, responses).await
+}
+
+/// `HeaderRequestExt::is_valid`, the precondition the client establishes before sending.
+pub fn header_request_is_valid(request: &HeaderRequest) -> bool {
+    request.is_valid()
+}
